@@ -706,3 +706,176 @@ Proof.
     + cbn in Hps. inversion Hps; subst. lia.
     + apply HR'. discriminate.
 Qed.
+
+(* ---- downstream recovery ------------------------------------------------------------------------ *)
+
+Lemma is_empty_snoc (x : list (nat * nat)) y : is_empty (x ++ [y]) = false.
+Proof. destruct x; reflexivity. Qed.
+
+(* the client already holds the server's current fragment (its acknowledgement was lost) *)
+Record MidDC (s : dsys) (k n j : nat) : Prop := {
+  dc_inv : DInv s;
+  dc_act : dact (dsnd s) = true;
+  dc_k : dk (dsnd s) = k;
+  dc_n : dn (dsnd s) = n;
+  dc_j : df (dsnd s) = j;
+  dc_lt : j < n;
+  dc_in : In (dcur_msg s) (dmsgs s);
+  dc_rcv : cR (drcv s) = k /\ cf (drcv s) = j /\ (cmode (drcv s) = CProg \/ cmode (drcv s) = CDone)
+}.
+
+(* one clean round from such a state: the duplicate is ignored (or, for a single-fragment packet that the
+   client has already delivered, delivered once more by the "weird situation" rule -- the same packet),
+   the acknowledgement gets through and the server moves on *)
+Lemma dclean_round_dup s k n j : MidDC s k n j ->
+  exists s3 o, dclean_round s = Some (s3, o) /\ DInv s3 /\ dk (dsnd s3) = k /\ cR (drcv s3) = k /\
+    (forall q, dsizes s3 q = dsizes s q) /\ (o = None \/ (o = Some (seq_tags k n) /\ S j = n)) /\
+    if S j =? n then dact (dsnd s3) = false else MidD s3 k n (S j).
+Proof.
+  intros M. pose proof M as [I Hact Hk Hn Hj Hlt Hin (HR & Hcf & Hmode)]. subst k n j.
+  pose proof (j_act _ I Hact) as Hpos. destruct (j_sn _ I Hpos) as [Hsn Hsf].
+  pose proof (j_sizes _ I (dk (dsnd s)) ltac:(lia)) as Hsz.
+  assert (Hclose : dclose s) by (unfold dclose; lia).
+  assert (Hf16 : df (dsnd s) mod 16 = df (dsnd s)) by (apply Nat.mod_small; lia).
+  pose proof (j_rcv _ I) as Hrcv. unfold drcv_ok in Hrcv.
+  remember (S (df (dsnd s)) =? dn (dsnd s)) as l eqn:L.
+  (* step 1: what the client does with the duplicate *)
+  assert (E1 : exists s1 o, dexec 2 s (CData (dcur_msg s)) = Some (s1, o) /\ dsnd s1 = dsnd s /\ dmsgs s1 = dmsgs s /\
+                 dacks s1 = dacks s /\ dsizes s1 = dsizes s /\ cR (drcv s1) = dk (dsnd s) /\ cf (drcv s1) = df (dsnd s) /\
+                 (cmode (drcv s1) = CProg \/ cmode (drcv s1) = CDone) /\
+                 (l = false -> cmode (drcv s1) = CProg) /\
+                 (o = None \/ (o = Some (seq_tags (dk (dsnd s)) (dn (dsnd s))) /\ S (df (dsnd s)) = dn (dsnd s)))).
+  { unfold dcur_msg in *. rewrite <- L in Hin |- *. rewrite (dexec_data s _ _ _ Hin ltac:(lia)). rewrite Hf16, HR.
+    destruct Hmode as [Hm|Hm]; rewrite Hm in Hrcv.
+    - (* in progress: buffer non-empty, plain duplicate *)
+      destruct Hrcv as (_ & _ & Hbuf).
+      assert (Hne : is_empty (cbuf (drcv s)) = false) by (rewrite Hbuf, seq_tags_S; apply is_empty_snoc).
+      assert (Hle : df (dsnd s) <= cf (drcv s)) by lia.
+      assert (Hw : (cf (drcv s) =? 0) && (df (dsnd s) =? 0) && is_empty (cbuf (drcv s)) = false) by (rewrite Hne; apply andb_false_r).
+      rewrite (crule_dup (dk (dsnd s) mod 8) (cf (drcv s)) (is_empty (cbuf (drcv s))) (df (dsnd s)) Hle Hw).
+      exists s, None. repeat split; try assumption; try reflexivity; auto.
+    - (* done: the packet has been delivered; S cf = n *)
+      destruct Hrcv as (_ & Hbuf & Hdone). rewrite HR, Hcf in Hdone.
+      assert (Hl : (S (df (dsnd s)) =? dn (dsnd s)) = true) by (apply Nat.eqb_eq; lia). rewrite Hl in L. subst l.
+      destruct (df (dsnd s)) as [|j'] eqn:Ej.
+      + (* single-fragment packet: weird-situation rule re-delivers it *)
+        rewrite Hcf, Hbuf. cbn [is_empty]. rewrite crule_weird.
+        exists (with_rcv s {| cR := dk (dsnd s); cf := 0; cbuf := []; cmode := CDone |}), (Some [(dk (dsnd s), 0)]).
+        change (0 mod 16) with 0. repeat split; try reflexivity; auto; try discriminate.
+        right. split; [replace (dn (dsnd s)) with 1 by lia; reflexivity|lia].
+      + assert (Hle : S j' <= cf (drcv s)) by lia.
+        assert (Hw : (cf (drcv s) =? 0) && (S j' =? 0) && is_empty (cbuf (drcv s)) = false) by (rewrite Hcf; reflexivity).
+        rewrite (crule_dup (dk (dsnd s) mod 8) (cf (drcv s)) (is_empty (cbuf (drcv s))) (S j') Hle Hw).
+        exists s, None. repeat split; try assumption; try reflexivity; auto; try discriminate. }
+  destruct E1 as (s1 & o & E1 & S1 & M1 & A1 & Z1 & R1 & F1 & Md1 & Mdl & Ho).
+  set (a := cur_dack s1).
+  set (s2 := add_dack s1 a).
+  assert (E2 : dexec 2 s1 CGenAck = Some (s2, None)) by reflexivity.
+  assert (E3 : dexec 2 s2 (DAck a) =
+               Some (if l
+                     then with_dsnd s2 {| dk := dk (dsnd s); df := df (dsnd s); dn := dn (dsnd s); dact := false |} (dmsgs s)
+                     else with_dsnd s2 {| dk := dk (dsnd s); df := S (df (dsnd s)); dn := dn (dsnd s); dact := true |}
+                                    (Data (dk (dsnd s)) (S (df (dsnd s))) (S (S (df (dsnd s))) =? dn (dsnd s)) :: dmsgs s), None)).
+  { rewrite L. rewrite <- S1, <- M1.
+    replace (dsnd s1) with (dsnd s2) by reflexivity. replace (dmsgs s1) with (dmsgs s2) by reflexivity.
+    apply (dexec_ack_hit s2 a).
+    - unfold s2. dnsimp. left. reflexivity.
+    - unfold s2. dnsimp. rewrite S1. exact Hact.
+    - unfold a, s2. dnsimp. lia.
+    - unfold a, s2. dnsimp. rewrite R1, S1. reflexivity.
+    - unfold a, s2. dnsimp. rewrite F1, S1. exact Hf16.
+    - unfold s2. dnsimp. rewrite S1. lia. }
+  set (s3 := if l
+             then with_dsnd s2 {| dk := dk (dsnd s); df := df (dsnd s); dn := dn (dsnd s); dact := false |} (dmsgs s)
+             else with_dsnd s2 {| dk := dk (dsnd s); df := S (df (dsnd s)); dn := dn (dsnd s); dact := true |}
+                            (Data (dk (dsnd s)) (S (df (dsnd s))) (S (S (df (dsnd s))) =? dn (dsnd s)) :: dmsgs s)) in *.
+  exists s3, o.
+  assert (Hround : dclean_round s = Some (s3, o)).
+  { unfold dclean_round. rewrite E1. rewrite E2. fold a. rewrite E3. reflexivity. }
+  split; [exact Hround|].
+  assert (Hc1 : dclose s1) by (unfold dclose; rewrite S1, R1; lia).
+  destruct (dstep_inv _ _ _ _ I (dexec_sound _ _ _ _ _ E1) Hclose Hc1) as [I1 _].
+  assert (Hc2 : dclose s2) by (unfold dclose, s2; dnsimp; rewrite S1, R1; lia).
+  destruct (dstep_inv _ _ _ _ I1 (dexec_sound _ _ _ _ _ E2) Hc1 Hc2) as [I2 _].
+  assert (Hc3 : dclose s3) by (unfold dclose, s3, s2; destruct l; dnsimp; rewrite R1; lia).
+  destruct (dstep_inv _ _ _ _ I2 (dexec_sound _ _ _ _ _ E3) Hc2 Hc3) as [I3 _].
+  split; [exact I3|].
+  split; [unfold s3, s2; destruct l; dnsimp; reflexivity|].
+  split; [unfold s3, s2; destruct l; dnsimp; exact R1|].
+  split; [intros q; unfold s3, s2; destruct l; dnsimp; rewrite Z1; reflexivity|].
+  split; [exact Ho|].
+  unfold s3. destruct l.
+  - reflexivity.
+  - constructor; unfold s2; dnsimp; try assumption; try reflexivity; try lia.
+    + unfold dcur_msg. dnsimp. left. reflexivity.
+    + left. split; [exact R1|]. split; [rewrite F1; reflexivity|apply Mdl; reflexivity].
+Qed.
+
+Lemma dreach_cur_in s outs : dreach s outs -> dact (dsnd s) = true -> In (dcur_msg s) (dmsgs s).
+Proof.
+  induction 1 as [|s outs e s' o Hr IH Hst Hc']; [cbn; discriminate|].
+  intros Hact. unfold dcur_msg in *.
+  inversion Hst; subst; dnsimp; try (apply IH; assumption); try discriminate;
+    first [ left; rewrite (Nat.eqb_sym n 1); reflexivity | left; reflexivity | right; apply IH; assumption ].
+Qed.
+
+Lemma dclean_rounds_dup_spec : forall m s k n j outs, MidDC s k n j -> j + m = n ->
+  exists s' outs', dclean_rounds m s outs = Some (s', outs') /\ DInv s' /\
+             dact (dsnd s') = false /\ dk (dsnd s') = k /\ cR (drcv s') = k /\
+             (outs' = outs \/ outs' = outs ++ [seq_tags k n]).
+Proof.
+  intros m s k n j outs M Hm. destruct m as [|m]; [pose proof (dc_lt _ _ _ _ M); lia|].
+  destruct (dclean_round_dup s k n j M) as (s3 & o & Hr & I3 & Hk3 & HR3 & Hsz3 & Ho & Hcase).
+  cbn [dclean_rounds]. rewrite Hr.
+  destruct (S j =? n) eqn:E.
+  - assert (m = 0) by lia. subst m. cbn [dclean_rounds].
+    destruct Ho as [-> | [-> _]]; eexists; eexists; csplit; try reflexivity; try assumption; auto.
+  - destruct Ho as [-> | [_ X]]; [|lia].
+    destruct (dclean_rounds_spec m s3 k n (S j) outs Hcase ltac:(lia)) as (s' & Hrs & I' & Ha' & Hk' & HR' & _).
+    exists s', (outs ++ [seq_tags k n]). csplit; try assumption. right. reflexivity.
+Qed.
+
+(* C02, logic part, downstream recovery: from any state reachable inside N-star with a packet in flight and
+   the client at most 4 packets behind, n - j clean rounds complete the packet (delivered now, or it had been
+   delivered already; a single-fragment packet may be handed over once more: the same packet) and leave the
+   two sides synchronised *)
+Theorem dclean_recovery s outs :
+  dreach s outs -> dact (dsnd s) = true -> dk (dsnd s) <= cR (drcv s) + 4 ->
+  exists s' outs', dclean_rounds (dn (dsnd s) - df (dsnd s)) s outs = Some (s', outs') /\ DInv s' /\
+     dact (dsnd s') = false /\ dk (dsnd s') = dk (dsnd s) /\ cR (drcv s') = dk (dsnd s) /\
+     (outs' = outs \/ outs' = outs ++ [seq_tags (dk (dsnd s)) (dn (dsnd s))]).
+Proof.
+  intros Hr Hact Hgap.
+  destruct (proto_down_safe s outs Hr) as (I & Hc & _).
+  pose proof (dreach_cur_in s outs Hr Hact) as Hin.
+  pose proof (j_act _ I Hact) as Hpos. destruct (j_sn _ I Hpos) as [Hsn Hsf].
+  pose proof (j_msgs _ I _ Hin) as Hck. unfold dcur_msg, msg_ok in Hck.
+  destruct Hck as (_ & _ & _ & _ & C5).
+  pose proof (j_le _ I) as Hle. pose proof (j_frag _ I) as Hfr.
+  pose proof (j_rcv _ I) as Hrcv. unfold drcv_ok in Hrcv.
+  pose proof (j_sizes _ I (dk (dsnd s)) ltac:(lia)) as Hsz.
+  assert (Hm0 : df (dsnd s) + (dn (dsnd s) - df (dsnd s)) = dn (dsnd s)) by lia.
+  assert (finish_a : MidD s (dk (dsnd s)) (dn (dsnd s)) (df (dsnd s)) ->
+     exists s' outs', dclean_rounds (dn (dsnd s) - df (dsnd s)) s outs = Some (s', outs') /\ DInv s' /\
+       dact (dsnd s') = false /\ dk (dsnd s') = dk (dsnd s) /\ cR (drcv s') = dk (dsnd s) /\
+       (outs' = outs \/ outs' = outs ++ [seq_tags (dk (dsnd s)) (dn (dsnd s))])).
+  { intros M. destruct (dclean_rounds_spec (dn (dsnd s) - df (dsnd s)) s (dk (dsnd s)) (dn (dsnd s)) (df (dsnd s)) outs M Hm0) as (s' & H1 & H2 & H3 & H4 & H5 & _).
+    exists s', (outs ++ [seq_tags (dk (dsnd s)) (dn (dsnd s))]). csplit; try assumption. right. reflexivity. }
+  destruct (Nat.eq_dec (cR (drcv s)) (dk (dsnd s))) as [HR|HR].
+  - specialize (Hfr HR).
+    destruct (cmode (drcv s)) eqn:Hmode.
+    + lia.
+    + destruct Hrcv as (_ & Hlt & Hbuf).
+      destruct (Nat.eq_dec (cf (drcv s)) (df (dsnd s))) as [Hcf|Hcf].
+      * apply (dclean_rounds_dup_spec (dn (dsnd s) - df (dsnd s)) s (dk (dsnd s)) (dn (dsnd s)) (df (dsnd s)) outs); [|exact Hm0]. constructor; auto.
+      * assert (Hpos' : 0 < df (dsnd s)) by lia.
+        destruct (C5 Hpos') as [X|[_ X]]; [lia|].
+        apply finish_a. constructor; auto. left. split; [exact HR|]. split; [lia|exact Hmode].
+    + destruct Hrcv as (_ & Hbuf & Hdone). rewrite HR in Hdone.
+      apply (dclean_rounds_dup_spec (dn (dsnd s) - df (dsnd s)) s (dk (dsnd s)) (dn (dsnd s)) (df (dsnd s)) outs); [|exact Hm0]. constructor; auto.
+      split; [exact HR|]. split; [lia|right; exact Hmode].
+    + destruct Hrcv as (_ & _ & Hna & _). specialize (Hna HR). congruence.
+  - assert (Hj0 : df (dsnd s) = 0).
+    { destruct (df (dsnd s)) as [|j'] eqn:E; [reflexivity|]. destruct (C5 ltac:(lia)) as [X|[X _]]; lia. }
+    apply finish_a. constructor; auto. right. split; [exact Hj0|lia].
+Qed.
